@@ -87,6 +87,8 @@ class Shim(object):
         self.trace_reads = cfg.get('trace_reads', True)
         self.crash_at = cfg.get('crash_at')          # 1-based op number: _exit before it
         self.crash_after = cfg.get('crash_after')    # _exit right after op k
+        self.intr_at = cfg.get('intr_at')            # KeyboardInterrupt (Ctrl-C) delivered just before op k ...
+        self.intr_after = cfg.get('intr_after')      # ... or when op k returns (Python raises it after the system call)
         self.faults = cfg.get('faults', [])          # [{at:k | match:{op,under}, errno:'EACCES', sticky:bool}]
         self.budget = cfg.get('budget', 20000)
         self.count_ops = set(cfg.get('count_ops', [])) or None  # which ops count as crash/fault points
@@ -236,6 +238,11 @@ class Shim(object):
                 ev['res'] = 'CRASH'
                 self._emit(ev)
                 self._die(137)
+            if self.intr_at is not None and self.seq == self.intr_at:
+                self.intr_at = None
+                ev['res'] = 'INTR'
+                self._emit(ev)
+                raise KeyboardInterrupt()
             f = self._fault_for(op, rels) if op not in self.nofault_ops else None
             if f is not None:
                 ev['res'] = f
@@ -263,6 +270,9 @@ class Shim(object):
                 pass
         if self.crash_after is not None and ev.get('seq') == self.crash_after:
             self._die(137)
+        if self.intr_after is not None and ev.get('seq') == self.intr_after:
+            self.intr_after = None
+            raise KeyboardInterrupt()
 
     def _lockstep(self, ev):
         ev['ls'] = True
@@ -300,9 +310,17 @@ class Shim(object):
                     hit = (self.seq == f['at'])
             elif 'match' in f:
                 m = f['match']
-                hit = (op in m.get('ops', [op])) and any(
-                    r is not None and (r == u or r.startswith(u + '/'))
-                    for r in rels for u in m.get('under', ['']) if True) if m.get('under') else (op in m.get('ops', [op]))
+                if m.get('exact'):
+                    hit = (op in m.get('ops', [op])) and any(r is not None and r in m['exact'] for r in rels)
+                    if hit and op in ('rename', 'replace') and len(rels) == 2 and None not in rels:
+                        # kernel order: a rename across mounts fails with EXDEV before any permission is looked at
+                        v = [self.volume_of(posixpath.dirname(posixpath.join(self.root, r))) for r in rels]
+                        if v[0] != v[1]:
+                            hit = False
+                else:
+                    hit = (op in m.get('ops', [op])) and any(
+                        r is not None and (r == u or r.startswith(u + '/'))
+                        for r in rels for u in m.get('under', ['']) if True) if m.get('under') else (op in m.get('ops', [op]))
                 if hit and m.get('nth'):
                     f['n'] = f.get('n', 0) + 1
                     hit = f['n'] == m['nth'] or (f.get('sticky') and f['n'] >= m['nth'])
